@@ -126,9 +126,9 @@ def run(ctx):
     hx = ctx.go_build("c07")
     ctx.log("harness built")
     if ctx.quick():
-        args = ["-gen", "20", "-cap", "300", "-coq", "800", "-life", "150", "-async", "40"]
+        args = ["-gen", "16", "-cap", "250", "-coq", "400", "-life", "100", "-async", "30"]
     else:
-        args = ["-gen", "150", "-cap", "1500", "-coq", "9000", "-life", "1500", "-async", "400"]
+        args = ["-gen", "150", "-cap", "1500", "-coq", "9000", "-life", "1500", "-async", "400", "-depth", "2"]
     lines = ctx.jsonl([hx, "-seed", str(ctx.seed)] + args, timeout=800)
     shapes, dist = {}, {}
     terms, refs = [], []
@@ -153,8 +153,10 @@ def run(ctx):
                 key = "inject:" + ("other-goroutine" if l.get("other") else "in-builtin") + ":" + "".join("U" if o["c"] == 0 else "C" for o in l["ops"])
             else:
                 key = k + ":" + what.split(":")[0].split(" ")[0]
+            progs = {prog} | {e.get("prog") for e in (l.get("life") or []) if e.get("prog")}
             ctx.finding(key, "%s (%s, limit %s): %s" % (k, prog, l.get("n"), what),
-                        {"line": l, "src": next((x.get("src") for x in lines if x["kind"] == "shape" and x["prog"] == prog), None)})
+                        {"line": l, "sources": {x["prog"]: x.get("src") for x in lines if x["kind"] == "shape" and x["prog"] in progs},
+                         "how": "harness/cmd/c07: fresh starlark.Thread, SetMaxExecutionSteps(n) (0 = none), ExecFile of the source with the host built-in b() predeclared; 'ops' are performed from inside the k-th call of b() (c>0: Cancel(reason c), c=0: Uncancel)"})
         if not l.get("coq"):
             continue
         if k == "sweep":
@@ -183,12 +185,13 @@ def run(ctx):
             terms.append("(CLife %d [%s] [%s])" % (l["n"], "; ".join(evs), "; ".join(ob)))
             refs.append(l)
     ctx.log("harness: %d lines, %d Go-oracle violations, %d cases for Coq" % (len(lines), nviol, len(terms)))
-    bad_model, bad_spec = coq_mismatches_par(ctx, "c07_cases", HEADER, terms, ["model_ok", "spec_ok"], shard=400 if ctx.quick() else 1500, workers=6)
+    bad_model, bad_spec = coq_mismatches_par(ctx, "c07_cases", HEADER, terms, ["model_ok", "spec_ok"], shard=2000 if ctx.quick() else 1500, workers=6)
     for i in bad_spec:
         l = refs[i]
         key = "spec:%s" % l["kind"]
+        progs = {l.get("prog")} | {e.get("prog") for e in (l.get("life") or []) if e.get("prog")}
         ctx.finding(key, "%s (%s, limit %s): observed %s is not what the specification allows" % (l["kind"], l.get("prog"), l.get("n"), l.get("obs") or "life"),
-                    {"line": l, "coq_term": terms[i]})
+                    {"line": l, "coq_term": terms[i], "sources": {x["prog"]: x.get("src") for x in lines if x["kind"] == "shape" and x["prog"] in progs}})
     only_model = [i for i in bad_model if i not in set(bad_spec)]
     if only_model:
         ctx.broken("correspondence:C07.Model", "model and implementation differ on %d case(s) where the specification is met, e.g. %s" % (len(only_model), terms[only_model[0]][:600]))
